@@ -81,6 +81,25 @@ Format(i, skel) ==
   /\ root' = Wrap(skel, FmtCat[i].text \o " // {type: \"" \o FmtCat[i].type \o "\"}") /\ typ' = ""
   /\ expect' = Verdict(FmtCat[i].ok)
 
+\* ---- calendar: a date is a day that exists in the proleptic Gregorian calendar, written YYYY-MM-DD; a datetime adds
+\* an hour below 24 and a minute below 60 (seconds are left at 00: leap seconds are not settled by the statement)
+IsLeap(y) == (y % 4 = 0 /\ y % 100 # 0) \/ y % 400 = 0
+DaysIn(m, y) == IF m \in {1, 3, 5, 7, 8, 10, 12} THEN 31 ELSE IF m \in {4, 6, 9, 11} THEN 30 ELSE IF IsLeap(y) THEN 29 ELSE 28
+DateOK(y, m, d) == m \in 1..12 /\ d >= 1 /\ d <= DaysIn(m, y)
+Pad2(n) == IF n < 10 THEN "0" \o ToString(n) ELSE ToString(n)
+DateText(y, m, d) == ToString(y) \o "-" \o Pad2(m) \o "-" \o Pad2(d)
+CalYears == {1600, 1900, 1999, 2000, 2023, 2024, 2100, 2400}
+CalMonths == {0, 1, 2, 4, 9, 12, 13}
+CalDays == {0, 1, 28, 29, 30, 31, 32}
+Calendar(y, m, d, skel) ==
+  /\ stage = "start" /\ fam' = "calendar" /\ stage' = "done" /\ list' = <<>>
+  /\ root' = Wrap(skel, "\"" \o DateText(y, m, d) \o "\" // {type: \"date\"}") /\ typ' = ""
+  /\ expect' = Verdict(DateOK(y, m, d))
+Clock(y, m, d, h, mi, skel) ==
+  /\ stage = "start" /\ fam' = "calendar" /\ stage' = "done" /\ list' = <<>>
+  /\ root' = Wrap(skel, "\"" \o DateText(y, m, d) \o "T" \o Pad2(h) \o ":" \o Pad2(mi) \o ":00Z\" // {type: \"datetime\"}") /\ typ' = ""
+  /\ expect' = Verdict(DateOK(y, m, d) /\ h < 24 /\ mi < 60)
+
 \* ---- `or` with two real alternatives: integer with a lower bound, string with a maximal length
 Or2(kind, i, b, m) ==
   /\ stage = "start" /\ fam' = "or2" /\ stage' = "done" /\ list' = <<>>
@@ -209,6 +228,8 @@ Next == \/ StartEnum
         \/ \E v, tv \in 1..N, s \in Skels : Const(v, tv, s)
         \/ \E n \in BOOLEAN, f \in {"absent", "true", "false"}, s \in Skels : Nullable(n, f, s)
         \/ \E i \in 1..Len(FmtCat), s \in Skels \ {"ref"} : Format(i, s)
+        \/ \E y \in CalYears, m \in CalMonths, d \in CalDays, s \in {"root", "item"} : Calendar(y, m, d, s)
+        \/ \E y \in {1900, 2024}, d \in {28, 29, 30}, h \in {0, 23, 24}, mi \in {0, 59, 60} : Clock(y, 2, d, h, mi, "prop")
         \/ \E i \in 1..Len(NumCat), b \in 1..Len(NumCat), m \in 0..2 : Or2("num", i, b, m)
         \/ \E i \in 1..Len(StrCat), b \in 1..Len(NumCat), m \in 0..2 : Or2("str", i, b, m)
         \/ \E r \in 1..Len(BigRules), b \in 1..Len(BigValues), neg \in BOOLEAN : BigRule(r, b, neg)
